@@ -5,7 +5,7 @@ Model: `QbiceVerif.Model.Hash` (`stream` = the bytes a value's `StableHash` impl
 hasher is abstract: state `σ`, `absorb`, `finish`).  All theorems hold for every hasher, every type of the
 universe, every well-typed value, any nesting depth and any collection size.
 -/
-import QbiceVerif.Lemmas.HashCanon
+import QbiceVerif.Lemmas.HashNested
 
 namespace QbiceVerif.Hash
 
@@ -94,16 +94,10 @@ theorem unordered_fixed_width (t : Ty) (vs : ValList) (st : σ) :
     (stream absorb finish (.uset t) (.list vs) st).length = 24 := by
   simp [stream, le_length]
 
-/-- the stated 128-bit collision event for one collection: two different multisets of entry streams of the
-    same size whose sub-hash sums agree modulo 2^128 -/
-def SumCollision (st : σ) (xs ys : List Bytes) : Prop :=
-  ¬ xs.Perm ys ∧ xs.length = ys.length ∧
-    (xs.map (subHash absorb finish st)).sum % M128 = (ys.map (subHash absorb finish st)).sum % M128
-
 /-- "equal fingerprints mean equal values up to a 128-bit collision", for one hash-ordered collection whose
     entries are in the ordered fragment: equal streams ⇒ equal sizes, and the entries are a permutation of
     each other (up to NaN payloads) unless the two entry multisets are a 128-bit sum collision. -/
-theorem unordered_discriminates_partial (t : Ty) (vs ws : ValList) (st : σ)
+theorem unordered_discriminates (t : Ty) (vs ws : ValList) (st : σ)
     (ho : t.ordered = true) (hwf : t.wf = true)
     (hv : hasType (.uset t) (.list vs) = true) (hw : hasType (.uset t) (.list ws) = true)
     (h : stream absorb finish (.uset t) (.list vs) st = stream absorb finish (.uset t) (.list ws) st) :
@@ -133,7 +127,7 @@ theorem unordered_discriminates_partial (t : Ty) (vs ws : ValList) (st : σ)
     simp [entryStreams, ValList.length_toList, hl]
 
 /-- the same for maps (entry = key then value) -/
-theorem umap_discriminates_partial (k v : Ty) (vs ws : ValList) (st : σ)
+theorem umap_discriminates (k v : Ty) (vs ws : ValList) (st : σ)
     (ho : k.ordered = true ∧ v.ordered = true) (hwf : k.wf = true ∧ v.wf = true)
     (hv : hasType (.umap k v) (.list vs) = true) (hw : hasType (.umap k v) (.list ws) = true)
     (h : stream absorb finish (.umap k v) (.list vs) st = stream absorb finish (.umap k v) (.list ws) st) :
@@ -143,7 +137,7 @@ theorem umap_discriminates_partial (k v : Ty) (vs ws : ValList) (st : σ)
         (entryStreams absorb finish (Ty.pair k v) vs (absorb st (le 8 vs.length)))
         (entryStreams absorb finish (Ty.pair k v) ws (absorb st (le 8 vs.length)))) := by
   rw [stream_umap, stream_umap] at h
-  refine unordered_discriminates_partial absorb finish (Ty.pair k v) vs ws st ?_ ?_ ?_ ?_ h
+  refine unordered_discriminates absorb finish (Ty.pair k v) vs ws st ?_ ?_ ?_ ?_ h
   · simp [Ty.pair, Ty.ordered, TyList.ordered, ho.1, ho.2]
   · simp [Ty.pair, Ty.wf, TyList.wf, hwf.1, hwf.2]
   · simpa [hasType] using hv
@@ -164,45 +158,37 @@ theorem fingerprint_discriminates (seed : Nat) (t : Ty) (v w : Val)
   · right
     exact ⟨_, _, hs, h⟩
 
-/- What is *not* proved: the nested statement.  `SameUpTo` is equality up to NaN payloads and up to the
-   order of entries of hash-ordered collections at any depth. -/
-mutual
-def Val.SameUpTo : Val → Ty → Val → Prop
-  | .some v, .option t, .some w => Val.SameUpTo v t w
-  | .ok v, .result t _, .ok w => Val.SameUpTo v t w
-  | .err v, .result _ e, .err w => Val.SameUpTo v e w
-  | .wrap v, .wrapper t, .wrap w => Val.SameUpTo v t w
-  | .list vs, .seq t, .list ws => ValList.SameAll vs t ws
-  | .list vs, .array _ t, .list ws => ValList.SameAll vs t ws
-  | .list vs, .uset t, .list ws => ∃ ws' : ValList, ws'.toList.Perm ws.toList ∧ ValList.SameAll vs t ws'
-  | .list vs, .umap k v, .list ws =>
-      ∃ ws' : ValList, ws'.toList.Perm ws.toList ∧ ValList.SameAll vs (Ty.pair k v) ws'
-  | .tuple vs, .tuple ts, .tuple ws => ValList.SameFields vs ts ws
-  | .variant i fs, .enum _ vars, .variant j gs =>
-      i = j ∧ match vars.get? i with
-              | some (_, fts) => ValList.SameFields fs fts gs
-              | none => False
-  | v, _, w => v.canon = w.canon
-def ValList.SameAll : ValList → Ty → ValList → Prop
-  | .nil, _, .nil => True
-  | .cons v vs, t, .cons w ws => Val.SameUpTo v t w ∧ ValList.SameAll vs t ws
-  | _, _, _ => False
-def ValList.SameFields : ValList → TyList → ValList → Prop
-  | .nil, .nil, .nil => True
-  | .cons v vs, .cons t ts, .cons w ws => Val.SameUpTo v t w ∧ ValList.SameFields vs ts ws
-  | _, _, _ => False
+section
+variable {σ : Type} (absorb : σ → Bytes → σ) (finish : σ → Nat)
+
+/-- "Values that differ feed different, unambiguous byte streams to the hasher, so equal fingerprints mean
+    equal values up to a 128-bit collision" — for EVERY type of the universe, hash-ordered collections nested
+    at any depth: if two well-typed values write streams (from one hasher state, followed by anything) that
+    agree, then the rests agree (framing is never ambiguous), and the values are the same up to NaN payloads
+    and up to the order of entries of hash-ordered collections (`Val.SameUpTo`), unless some hash-ordered
+    collection inside them is a 128-bit sum collision (`SomeCollision`). -/
+theorem stream_discriminates (t : Ty) (v w : Val) (st : σ) (r1 r2 : Bytes)
+    (hwf : t.wf = true) (hv : hasType t v = true) (hw : hasType t w = true)
+    (h : stream absorb finish t v st ++ r1 = stream absorb finish t w st ++ r2) :
+    (Val.SameUpTo v t w ∨ SomeCollision absorb finish) ∧ r1 = r2 :=
+  full_dec absorb finish v t w st r1 r2 hwf hv hw h
+
 end
 
-/-- The full discrimination statement for *every* type of the universe (hash-ordered collections nested
-    anywhere): equal streams from one hasher state ⇒ the values are the same up to NaN payloads and entry
-    order, unless some hash-ordered collection inside them is a 128-bit sum collision.  Proved above for the
-    ordered fragment (`stream_inj`) and for one collection with ordered entries
-    (`unordered_discriminates_partial`, `umap_discriminates_partial`); the general nesting is not proved. -/
-def C13_full_statement : Prop :=
-  ∀ {σ : Type} (absorb : σ → Bytes → σ) (finish : σ → Nat) (t : Ty) (v w : Val) (st : σ),
-    t.wf = true → hasType t v = true → hasType t w = true →
-    stream absorb finish t v st = stream absorb finish t w st →
-    Val.SameUpTo v t w ∨ ∃ (st' : σ) (xs ys : List Bytes), SumCollision absorb finish st' xs ys
+/-- The same for the final seeded SipHash-128 fingerprint: equal `hash128` ⇒ same value up to entry order and
+    NaN payloads, or a sum collision inside, or two different byte strings with one SipHash-128 value. -/
+theorem fingerprint_discriminates_all (seed : Nat) (t : Ty) (v w : Val)
+    (hwf : t.wf = true) (hv : hasType t v = true) (hw : hasType t w = true)
+    (h : hash128 seed t v = hash128 seed t w) :
+    Val.SameUpTo v t w ∨ SomeCollision SipStream.absorb SipStream.finish ∨
+    ∃ a b : Bytes, a ≠ b ∧ ((seeded seed).absorb a).finish = ((seeded seed).absorb b).finish := by
+  by_cases hs : topStream seed t v = topStream seed t w
+  · have := (stream_discriminates SipStream.absorb SipStream.finish t v w (seeded seed) [] [] hwf hv hw
+      (by rw [List.append_nil, List.append_nil]; exact hs)).1
+    rcases this with h1 | h2
+    · exact Or.inl h1
+    · exact Or.inr (Or.inl h2)
+  · exact Or.inr (Or.inr ⟨_, _, hs, h⟩)
 
 /-! ## Non-vacuity -/
 
@@ -230,10 +216,16 @@ example : hasType (.uset (.int false .w8)) s12 = true ∧ s12 ≠ s21 :=
   ⟨by decide, by simp [s12, s21]⟩
 example : stream ab fin (.uset (.int false .w8)) s12 [] = stream ab fin (.uset (.int false .w8)) s21 [] :=
   uset_order_irrelevant ab fin _ _ _ _ (List.Perm.swap _ _ _)
--- the collision disjunct of `unordered_discriminates_partial` is really needed: with the toy `fin`
+-- the collision disjunct of `unordered_discriminates` is really needed: with the toy `fin`
 -- (which only counts bytes) {1,2} and {3,4} collide …
 example : stream ab fin (.uset (.int false .w8)) s12 []
     = stream ab fin (.uset (.int false .w8)) (.list (.cons (.int 3) (.cons (.int 4) .nil))) [] := by decide
+-- `SameUpTo` relates the two orders of a set, and does not relate different sets
+example : Val.SameUpTo s12 (.uset (.int false .w8)) s21 := by
+  refine ⟨.cons (.int 1) (.cons (.int 2) .nil), List.Perm.swap _ _ _, ?_⟩
+  simp [ValList.SameAll, Val.SameUpTo, Val.canon]
+example : ¬ Val.SameUpTo s12 (.seq (.int false .w8)) s21 := by
+  simp [s12, s21, ValList.SameAll, Val.SameUpTo, Val.canon]
 -- … and it can be false: sets of different sizes never have equal streams
 example : stream ab fin (.uset (.int false .w8)) s12 []
     ≠ stream ab fin (.uset (.int false .w8)) (.list (.cons (.int 1) .nil)) [] := by decide
